@@ -46,6 +46,7 @@ import DdsModel.Proofs.QuantBits64
 import DdsModel.Proofs.TrapEncSplit
 import DdsModel.Proofs.FormatTables
 import DdsModel.TrapEncSeeds
+import DdsModel.Proofs.EncBcSitesQ
 namespace Dds.C15
 open Dds Dds.EncTotal
 
@@ -1022,5 +1023,144 @@ example :
 
 end Dds.C15
 namespace Dds.C15
+
+end Dds.C15
+
+/-! ## The float → integer sites of the block-compression encoders (`EncBcSites.lean`, branch `wE`)
+
+Every place of src/encode/bc4.rs, bc1.rs, bc7.rs where an `f32` becomes an integer that is then a checked `u8`
+operand, an index or a `debug_assert!`-guarded field (inventory with the data flow: notes/C15.md), as a trapping
+mirror on binary32 bit patterns: `none` = a panic of the overflow-checking / debug-assertion profile.  Proved
+for EVERY bit pattern of the site's guaranteed input set — all 2^32 (2^64 for pairs) unless a hypothesis says
+otherwise; the hypotheses `≤ one` are themselves theorems about the loaders (`bc4_block_clamp_range`).  glam's
+`min`/`max`/`clamp` are its SSE2 backend's `_mm_min_ps`/`_mm_max_ps` (`sseMin`, `sseMax`); where it matters both
+that and `f32::min` are covered.  NOT covered: assertions on float VALUES (`Inter6Palette::new`'s `c0 != c1`,
+`best_error.is_finite()`, `best_c0 <= best_c1` of `optimal_channel`, which depend on float comparisons of the
+search loops) — these stay with the harness. -/
+namespace Dds.C15
+open Dds Dds.CF32 Dds.EncBcSites
+
+/-- `Block::from_raw` (bc4.rs:31) and `compress_bc1_block` (bc1.rs:76): glam's SSE2 `clamp(ZERO, ONE)` maps EVERY
+pattern — NaN of any payload, ±∞, −0.0, negative, huge, subnormal — to a pattern `+0.0 … 1.0`, and lane-wise /
+horizontal SSE2 `min`/`max` of such values (`Block::min_max`, `get_single_color`) stay there. -/
+theorem bc4_block_clamp_range (x : Nat) (hx : x < 2 ^ 32) :
+    sseClamp01 x ≤ one ∧
+    ∀ a b, a ≤ one → b ≤ one → sseMin a b ≤ one ∧ sseMax a b ≤ one := by
+  refine ⟨sseClamp01_le x hx, fun a b ha hb => ⟨?_, ?_⟩⟩
+  · unfold sseMin; split <;> assumption
+  · unfold sseMax; split <;> assumption
+
+/-- `reference_brute_force` (bc4.rs:126–135; reached at quality Unreasonable): for every block minimum and maximum
+(any patterns) and every `min` of the outer loop `0..min_max`, `min + 1` does not overflow `u8` and every `max` of the
+inner loop `max_min.max(min + 1)..=255` passes `debug_assert!(c0 > c1)` of `new_inter6_unorm(max, min)`. -/
+theorem bc4_brute_force_bounds_trapfree (blockMin blockMax mn : Nat) (h : mn < bruteMinMax blockMax) :
+    ∃ lo, bruteInnerLo (bruteMaxMin blockMin) mn = some lo ∧ mn < lo ∧
+      ∀ mx, lo ≤ mx → newInter6Unorm mx mn = some (mx, mn) :=
+  brute_ok blockMin blockMax mn h
+
+/-- the single-colour path (bc4.rs:97–99, 401–422): for block extrema in `[+0, 1]` (guaranteed by
+`bc4_block_clamp_range`) `value = (min + max) * 0.5` is again a pattern `+0.0 … 1.0`, and for such a value
+`new_closest` passes `debug_assert!(x <= 254)` of `s8::from_norm` (snorm) — UNORM has no assertion. -/
+theorem bc4_single_color_sites_trapfree (bmin bmax : Nat) (h1 : bmin ≤ one) (h2 : bmax ≤ one) (snorm : Bool) :
+    singleValue bmin bmax ≤ one ∧
+    ∃ c0 c1, newClosest snorm (singleValue bmin bmax) = some (c0, c1) ∧ c0 < 256 ∧ c1 < 256 :=
+  ⟨singleValue_le bmin bmax h1 h2, newClosest_some snorm _ (singleValue_le bmin bmax h1 h2)⟩
+
+/-- `EndPoints::quantize` and `EndPoints::new_inter6` (bc4.rs:425–565), UNORM and SNORM, for EVERY pair of bit
+patterns (NaN, ±∞, negative, > 1, both zeros) and every choice of `f32::min`/`f32::max` on a ±0 tie: no `u8`
+subtraction underflows (`254 - …`, `255 - …`, `min -= 1`), `debug_assert!(min < max)` holds, both
+`s8::from_norm` assertions hold, `debug_assert!(c0 != c1)` holds; the codes are distinct bytes, `c0 > c1` as `u8`
+(UNORM) resp. as `i8` (`new_inter6`, SNORM): the block is in 6-interpolation mode. -/
+theorem bc4_endpoint_sites_trapfree (t1 t2 snorm : Bool) (e0 e1 : Nat) (h0 : e0 < 2 ^ 32) (h1 : e1 < 2 ^ 32) :
+    (∃ c0 c1, quantizeEnds t1 t2 snorm e0 e1 = some (c0, c1) ∧ c0 < 256 ∧ c1 < 256 ∧ c0 ≠ c1 ∧
+      (snorm = false → c1 < c0)) ∧
+    (∃ c0 c1, newInter6 t1 t2 snorm e0 e1 = some (c0, c1) ∧ c0 < 256 ∧ c1 < 256 ∧
+      (snorm = false → c1 < c0) ∧ (snorm = true → asI8 c1 < asI8 c0)) := by
+  obtain ⟨c0, c1, e, a, b, c, d, _⟩ := quantizeEnds_some t1 t2 snorm e0 e1 h0 h1
+  exact ⟨⟨c0, c1, e, a, b, c, d⟩, newInter6_some t1 t2 snorm e0 e1 h0 h1⟩
+
+/-- what the proof of `bc4_endpoint_sites_trapfree` rests on: for every non-NaN pattern
+`(255·x) as u8 + (255·(1 − x)) as u8 ≤ 255` (so `255 − …` is at least the rounded-down minimum), and the same with
+254 on the clamped range.  Not an error bound: `x ↦ (K·x) as u8` is monotone, `x ↦ (K·(1 − x)) as u8` antitone
+(`rpU_mono`), and 256 checked cut points (`decide +kernel`) cover `[+0, 1]`. -/
+theorem bc4_floor_ceil_sum (x : Nat) (hx : x < 2 ^ 32) (hn : isNaN x = false) :
+    floorK k255 x + ceilTermK k255 x ≤ 255 ∧
+    (x = signBit ∨ x ≤ one → floorK k254 x + ceilTermK k254 x ≤ 254) :=
+  ⟨sum255 x hx hn, sum254 x⟩
+
+/-- `Inter6Palette::closest` (bc4.rs:758–762): for EVERY `pixel`, `factor1`, `add1` (so every `blend`, NaN
+included) `INDEX_MAP[blend7 as usize]` is in bounds and the index value passes `debug_assert!(value < 8)` of
+`IndexList::set`. -/
+theorem bc4_index_map_in_range (pixel factor1 add1 : Nat) :
+    ∃ b v, inter6Closest pixel factor1 add1 = some (b, v) ∧ b ≤ 7 ∧ indexValueOk v = true :=
+  inter6Closest_some pixel factor1 add1
+
+/-- `R5G6B5Color::round`, `floor`, `ceil` (bc1.rs:637–650) for EVERY colour (three arbitrary patterns), with glam's
+SSE2 `min` (`sse = true`) as well as with `f32::min` (`false`): the three `debug_assert!`s of `R5G6B5Color::new`
+hold. -/
+theorem bc1_r5g6b5_round_in_range (sse : Bool) (x y z : Nat) :
+    (∃ r g b, r5g6b5Round sse x y z = some (r, g, b) ∧ r ≤ 31 ∧ g ≤ 63 ∧ b ≤ 31) ∧
+    (∃ r g b, r5g6b5Floor sse x y z = some (r, g, b) ∧ r ≤ 31 ∧ g ≤ 63 ∧ b ≤ 31) ∧
+    (∃ r g b, r5g6b5Ceil sse x y z = some (r, g, b) ∧ r ≤ 31 ∧ g ≤ 63 ∧ b ≤ 31) :=
+  ⟨r5g6b5_lanes sse _ x y z, r5g6b5_lanes sse _ x y z, r5g6b5_lanes sse _ x y z⟩
+
+/-- `optimal_channel` (bc1.rs:379–401) for EVERY `color`, `w0`, `w1`, `c0` and `max ∈ {31, 63}`: the loop bound
+`c0_max ≤ max`; `c1_floor + 1` does not overflow `u8`; `c1_floor ≤ c1_ceil ≤ max` (the `best_c1 <= max` half of the
+final `debug_assert!`, and `R5G6B5Color::new`'s).  The other half, `best_c0 <= best_c1`, depends on which candidate
+the float error comparison picks and is NOT proved here. -/
+theorem bc1_single_color_sites_trapfree (color w0 w1 c0 mx : Nat) (hmx : mx = 31 ∨ mx = 63) :
+    optC0Max color mx ≤ mx ∧
+    ∃ f c, optC1 color w0 w1 mx c0 = some (f, c) ∧ f ≤ c ∧ c ≤ mx :=
+  ⟨optC0Max_le color mx, optC1_some color w0 w1 mx c0 (by omega)⟩
+
+/-- `channel_round::<B>` (bc7.rs:2197) behind `Rgb/Rgba/Alpha::<B>::new` for every `B` the encoder instantiates
+(4 … 8) and EVERY pattern: not `unreachable!()`, no `u8` over/underflow of `nearest ± 1`, and
+`debug_assert!(x <= MAX)` holds. -/
+theorem bc7_channel_round_in_range (B v : Nat) (hB : 4 ≤ B ∧ B ≤ 8) (hv : v < 2 ^ 32) :
+    ∃ r, quantRound B v = some r ∧ r ≤ 2 ^ B - 1 := by
+  obtain ⟨r, e, h⟩ := channelRound_some B v hB hv
+  unfold quantRound chanNew; rw [e]; dsimp only; rw [if_pos h]; exact ⟨r, rfl, h⟩
+
+/-- `channel_floor::<B>` (bc7.rs:2216), likewise -/
+theorem bc7_channel_floor_in_range (B v : Nat) (hB : 4 ≤ B ∧ B ≤ 8) (hv : v < 2 ^ 32) :
+    ∃ r, quantFloor B v = some r ∧ r ≤ 2 ^ B - 1 := by
+  obtain ⟨r, e, h⟩ := channelFloor_some B v hB hv
+  unfold quantFloor chanNew; rw [e]; dsimp only; rw [if_pos h]; exact ⟨r, rfl, h⟩
+
+/-- `channel_ceil::<B>` (bc7.rs:2234), likewise -/
+theorem bc7_channel_ceil_in_range (B v : Nat) (hB : 4 ≤ B ∧ B ≤ 8) :
+    ∃ r, quantCeil B v = some r ∧ r ≤ 2 ^ B - 1 := by
+  obtain ⟨r, e, h⟩ := channelCeil_some B v hB
+  unfold quantCeil chanNew; rw [e]; dsimp only; rw [if_pos h]; exact ⟨r, rfl, h⟩
+
+-- the clamp: NaN (either sign), −0.0, −∞ ↦ +0.0; +∞ ↦ 1.0; a subnormal stays
+example : sseClamp01 0x7FC00000 = 0 ∧ sseClamp01 0xFFC00001 = 0 ∧ sseClamp01 0x80000000 = 0 ∧
+    sseClamp01 0xFF800000 = 0 ∧ sseClamp01 0x7F800000 = one ∧ sseClamp01 1 = 1 := by decide +kernel
+-- the `[+0, 1]` hypothesis of the single-colour site is needed (1.01 ↦ norm 255: `s8::from_norm` would panic) and
+-- satisfiable (1.0 ↦ 254 ↦ 0x7F; 0.5 ↦ 127 ↦ 0x00)
+example : newClosest true 0x3F8147AE = none ∧ newClosest true one = some (127, 129) ∧
+    newClosest true half = some (0, 129) ∧ one ≤ one ∧ singleValue one one = one := by decide +kernel
+-- endpoints: equal values take the second stage (0.5/0.5: floor 127, 255 − floor(127.5) = 128); NaN/NaN gives
+-- (255, 0); a pair far outside [0, 1] saturates; SNORM: 0.5/0.5 gives norms 126/127 = codes 0xFF/0x00;
+-- −0.0 against +0.0 with either tie choice
+example : quantizeEnds false false false half half = some (128, 127) ∧
+    quantizeEnds true true false 0x7FC00000 0xFFC00000 = some (255, 0) ∧
+    quantizeEnds false true false 0xC2C80000 0x42C80000 = some (255, 0) ∧
+    quantizeEnds false false true half half = some (0, 255) ∧
+    newInter6 false false true half half = some (0, 255) ∧
+    quantizeEnds true false false 0x80000000 0 = some (1, 0) ∧
+    quantizeEnds false true true 0x80000000 0 = some (130, 129) := by decide +kernel
+-- the brute-force bounds of an all-ones block: `min_max = 255`, so `min = 254` is the last outer iteration
+example : bruteMinMax one = 255 ∧ bruteMaxMin one = 254 ∧ 254 < bruteMinMax one ∧
+    bruteInnerLo (bruteMaxMin one) 254 = some 255 := by decide +kernel
+-- BC1: NaN quantises to the maximum through `min` (SSE2 and scalar alike), −∞ to 0, 1.0 to 31/63/31
+example : r5g6b5Round true 0x7FC00000 0xFF800000 one = some (31, 0, 31) ∧
+    r5g6b5Round false 0x7FC00000 0xFF800000 one = some (31, 0, 31) ∧
+    r5g6b5Ceil true one one 0 = some (31, 63, 0) ∧ r5g6b5Floor true one 0x7F800000 half = some (31, 63, 15) := by
+  decide +kernel
+-- BC7: NaN ↦ 0 behind `clamp`, +∞ ↦ MAX, 1.0 ↦ MAX, and the `min` of the 4-bit case
+example : quantRound 5 0x7FC00000 = some 0 ∧ quantRound 7 0x7F800000 = some 127 ∧ quantRound 6 one = some 63 ∧
+    quantRound 4 0x7FC00000 = some 15 ∧ quantCeil 5 half = some 16 ∧ quantFloor 5 half = some 15 ∧
+    quantRound 3 one = none := by decide +kernel
 
 end Dds.C15
